@@ -1,5 +1,6 @@
 (* C17 — validator records survive conversion, storage and genesis round trips. *)
-Require Import Model.Base Model.Convert proofs.ConvertProofs.
+From stdpp Require Import gmap.
+Require Import Model.Base Model.Convert Model.State Model.Staking Model.Poa Model.App proofs.ConvertProofs proofs.InvHistory proofs.InvPools proofs.InvTotal.
 
 (* staking -> PoA -> staking: every field is preserved; only the commission's update time is reset
    (to the Unix epoch; it is not among the fields the property lists) *)
@@ -21,3 +22,15 @@ Example C17_all_fields_populated :
               sv_msd := 5; sv_onhold := 6; sv_ubids := [7;8] |} in
   to_staking (to_poa v) = with_sv_update_time v 0 /\ to_staking (to_poa v) <> v.
 Proof. split; [reflexivity|discriminate]. Qed.
+
+(* InitGenesis (ordered after genutil, whose gentxs build the validator set): PoA caches the total power of the set the chain
+   starts with — the sum of the last validator powers x/staking's first EndBlocker wrote — and starts with a zero running sum,
+   so the per-block limit of the first blocks works from the imported chain's total power *)
+Theorem C17_genesis_caches_the_total_power : forall g,
+  wf_genesis g ->
+  let c := w_chain (init_world g) in
+  cached_power (poa c) = last_total (stk c) /\ last_total (stk c) = tsum (last_pow (stk c)) /\ abs_changed (poa c) = 0.
+Proof.
+  intros g Hg c. pose proof (init_world_not_halted g Hg) as Hh. pose proof (reachable_TL g [] Hg Hh) as HT. cbn in HT. fold c in HT.
+  split; [|split; [exact HT|]]; subst c; unfold init_world; destruct (apply_valset_updates _); reflexivity.
+Qed.
